@@ -235,7 +235,7 @@ func drawAtom(r *eng.Run, allowInvalid bool) []byte {
 		utf8.EncodeRune(b, ru)
 		return b
 	}
-	switch r.T.Int(sim.LUTF8, 7) {
+	switch r.T.Int(sim.LUTF8, 8) {
 	case 0: // lone continuation / invalid single bytes
 		return []byte{[]byte{0x80, 0xbf, 0xc0, 0xc1, 0xf5, 0xf8, 0xfe, 0xff, 0x9f, 0xa0}[r.T.Int(sim.LUTF8, 10)]}
 	case 1: // overlongs
@@ -246,6 +246,15 @@ func drawAtom(r *eng.Run, allowInvalid bool) []byte {
 		return [][]byte{{0xf4, 0x90, 0x80, 0x80}, {0xf4, 0x8f, 0xbf, 0xbf}, {0xf5, 0x80, 0x80, 0x80}, {0xf7, 0xbf, 0xbf, 0xbf}, {0xf8, 0x88, 0x80, 0x80, 0x80}}[r.T.Int(sim.LUTF8, 5)]
 	case 4: // truncated sequences
 		return [][]byte{{0xc2}, {0xe2, 0x82}, {0xe2}, {0xf0, 0x9f, 0x98}, {0xf0, 0x9f}, {0xf0}}[r.T.Int(sim.LUTF8, 6)]
+	case 5: // a sequence interrupted by a run of ASCII: lead (and part of its tail), 8-20 ASCII bytes, the rest
+		seqs := [][]byte{{0xc3, 0xa9}, {0xe2, 0x82, 0xac}, {0xf0, 0x9f, 0x98, 0x80}}
+		q := seqs[r.T.Int(sim.LUTF8, 3)]
+		cut := 1 + r.T.Int(sim.LUTF8, len(q)-1)
+		b := append([]byte(nil), q[:cut]...)
+		for i, n := 0, 8+r.T.Int(sim.LUTF8, 13); i < n; i++ {
+			b = append(b, byte('a'+i%26))
+		}
+		return append(b, q[cut:]...)
 	default: // every lead byte x boundary continuation values
 		lead := byte(0xc0 + r.T.Int(sim.LUTF8, 0x40))
 		n := 1
@@ -409,6 +418,10 @@ func C07(r *eng.Run) {
 	p := NewPipe(r, s.Wire)
 	p.Marks = MarksOf(s.Frames)
 	p.SegMode = DrawSeg(r)
+	if cfg.App == AppReader && r.T.Bool(sim.LCfg) {
+		c07Tolerant(r, cfg, s, p)
+		return
+	}
 	// First invalid text message, if any.
 	var badMsg *Msg
 	for _, it := range s.Items {
@@ -457,6 +470,47 @@ func C07(r *eng.Run) {
 	}
 	if o.Open != nil && (len(o.Open.Data) > len(badMsg.Payload) || !bytes.Equal(o.Open.Data, badMsg.Payload[:len(o.Open.Data)])) {
 		r.Failf("wrong_payload", "%s: bytes handed out before the UTF-8 error are not a prefix of the payload%s", cfg.Name(), firstDiff(o.Open.Data, badMsg.Payload))
+	}
+}
+
+// c07Tolerant: an application that answers ErrInvalidUTF8 by discarding the
+// rest of the message and reading on. Every message of the stream is then
+// judged on its own: valid text and all binary delivered exactly, invalid text
+// rejected - whatever preceded it on the same Reader.
+func c07Tolerant(r *eng.Run, cfg ReadCfg, s *Stream, p *Pipe) {
+	cfg.AfterUTF8Error = true
+	cfg.OnInter = 0
+	r.SetEntry("Reader/discard-after-error")
+	r.Note("C07 tolerant Reader side=%d seg=%d stream: %s", cfg.Side, p.SegMode, s.Describe())
+	o := RunApp(r, p, cfg)
+	got := o.Delivered()
+	if len(got) != len(s.Items) || o.Err != io.EOF {
+		r.Failf("valid_text_rejected", "tolerant Reader: %d of %d messages handled, stream ended with %v from %s", len(got), len(s.Items), o.Err, o.ErrAt)
+	}
+	for i, it := range s.Items {
+		m, g := it.Msg, got[i]
+		invalid := m.Op == ref.OpText && !utf8.Valid(m.Payload)
+		switch {
+		case invalid && !g.Rejected:
+			r.Failf("invalid_text_delivered", "tolerant Reader: message %d is invalid text (%x) but was not rejected (earlier messages on this Reader: %d)", i, head(m.Payload, 16), i)
+		case !invalid && g.Rejected:
+			what := "valid text"
+			if m.Op == ref.OpBinary {
+				what = "binary"
+				r.Probe("binary_after_rejected_text")
+			}
+			r.Failf("valid_text_rejected", "tolerant Reader: message %d is %s (%x) but was rejected with ErrInvalidUTF8 after %d earlier messages on the same Reader", i, what, head(m.Payload, 16), i)
+		}
+		if invalid {
+			r.Res.Nontrivial = true
+			r.Probe("rejected_then_continued")
+		}
+		if len(g.Data) > len(m.Payload) || !bytes.Equal(g.Data, m.Payload[:len(g.Data)]) {
+			r.Failf("wrong_payload", "tolerant Reader: message %d: bytes handed out are not a prefix of the payload%s", i, firstDiff(g.Data, m.Payload))
+		}
+		if !g.Partial && !bytes.Equal(g.Data, m.Payload) {
+			r.Failf("wrong_payload", "tolerant Reader: message %d delivered %d of %d bytes", i, len(g.Data), len(m.Payload))
+		}
 	}
 }
 
